@@ -48,6 +48,18 @@ CHECKS.update({
    note="Grey-zone bodies are not asserted beyond C07/C14 invariants.", ref="DESIGN.md 5/C19"),
 })
 
+CHECKS.update({
+ "C14": dict(tech=REF + "; hostile byte streams next to control clients; panic capture in wrapped handlers and worker-death attribution",
+   text="Exploration: hostile clients (random bytes, mutated and truncated packets, oversize announcements, every body kind in every handler state, logins of users with oddly configured authenticators, key mismatches) run next to control clients that perform a known-good login, authorization and accounting before and after; a panic in any handler, the death of the worker process, or any deviation on a control connection is a violation.",
+   note="Process death outside handlers is detected by worker death (the plan is written to disk before execution).", ref="DESIGN.md 5/C14"),
+ "C17": dict(tech=SIM + "; tape-placed cancellation / accept faults / listener close relative to accepts, reads, parked handlers and blocked writes; serial and batch steps; fake-clock advances around every armed deadline; safety and bounded-liveness history oracle",
+   text="Exploration of schedules: 0..6 connections idle, mid-header, mid-body, with handlers parked at seams or writes blocked; the tape places cancellation, accept errors and listener close anywhere, including in the same scheduler step as an accept or a delivery (batch mode); the clock is advanced to just before/at/after each deadline. Oracle: at 'Serve returned' listener and all accepted connections are closed, all handlers ended, nothing happens afterwards; Serve returns within a bounded number of deadline advances once nothing is parked; every read is preceded by a finite future deadline that is not extended inside a packet, and an expired deadline closes the connection.",
+   note="Liveness is bounded (12 deadline advances after the last fault); schedules sampled.", ref="DESIGN.md 5/C17"),
+ "C20": dict(tech=SIM + "; prometheus gauges read at every quiescent scheduler step and compared with counters derived from the history",
+   text="Exploration: connection histories mixing completed and abandoned sessions, refused admissions, sequence violations (even first number), key mismatches, resets and shutdown with open connections; the four gauges are read at every quiescent step: never below rest, equal to the history-derived model (handlers, sessions), back at rest once everything closed.",
+   note="Gauges are process-global: values are taken relative to the run's baseline read at rest.", ref="DESIGN.md 5/C20"),
+})
+
 def main():
     checks = []
     for pid in ALL:
